@@ -46,6 +46,9 @@ pub struct PoolRun {
     pub drain_timeout: bool,
     /// a worker thread panicked during the run (message)
     pub worker_panic: Option<String>,
+    /// process-wide live bytes once every queued packet has been analysed and before the pool is shut down
+    /// (only when alloc::global_on())
+    pub live_at_quiescence: Option<i64>,
 }
 
 /// pools use process-wide hooks: one pool run at a time
@@ -130,7 +133,20 @@ pub fn run_pool(kind: PoolKind, frames: &[Vec<u8>], cfg: &PoolCfg, filter: Optio
                 if last_progress.1.elapsed() > Duration::from_millis(300) && pool.stats().workers.iter().all(|w| w.queue_size == 0) {
                     break;
                 }
+                if crate::alloc::global_on() {
+                    // memory measurement: the consumer keeps up with the results (an unread result channel is not analyzer state)
+                    while let Ok(r) = $rx.try_recv() {
+                        drop(r);
+                    }
+                }
                 std::thread::sleep(Duration::from_micros(200));
+            }
+            if crate::alloc::global_on() {
+                std::thread::sleep(Duration::from_millis(30));
+                while let Ok(r) = $rx.try_recv() {
+                    drop(r);
+                }
+                run.live_at_quiescence = Some(crate::alloc::global_live());
             }
             let stats = pool.stats();
             run.total_dispatched = stats.total_dispatched;
